@@ -608,9 +608,9 @@ func engineJobs(rng *rand.Rand, tier, comp string) []engJob {
 		}
 		Ws := []int{1, 2, 7, 100, 1000}
 		// small, every mix, every W
-		reps := 3
+		reps := 8
 		if thorough {
-			reps = 25
+			reps = 80
 		}
 		for _, W := range Ws {
 			add("direct", W, "", fmt.Sprintf("W%d/empty", W))
@@ -627,7 +627,7 @@ func engineJobs(rng *rand.Rand, tier, comp string) []engJob {
 		// more results than the 1000-slot buffers, more errors than the 100-slot buffer
 		big := 1
 		if thorough {
-			big = 6
+			big = 8
 		}
 		for i := 0; i < big; i++ {
 			for _, W := range Ws {
@@ -640,9 +640,9 @@ func engineJobs(rng *rand.Rand, tier, comp string) []engJob {
 			}
 		}
 		// the engine exactly as the commands wire it (real generator chain, worker option, limiter on/off)
-		wreps := 2
+		wreps := 4
 		if thorough {
-			wreps = 12
+			wreps = 40
 		}
 		for i := 0; i < wreps; i++ {
 			for _, W := range []int{1, 7, 100} {
@@ -658,12 +658,12 @@ func engineJobs(rng *rand.Rand, tier, comp string) []engJob {
 			add("generr", W, "", "generr")
 		}
 	case "exitdelay":
-		n := 24
+		n := 120
 		if thorough {
-			n = 160
+			n = 1200
 		}
 		for i := 0; i < n; i++ {
-			delay := []int{100, 150, 300, 400, 600}[rng.Intn(5)]
+			delay := []int{150, 200, 300, 400, 600}[rng.Intn(5)]
 			if i == 0 {
 				delay = 300
 			}
@@ -679,20 +679,32 @@ func engineJobs(rng *rand.Rand, tier, comp string) []engJob {
 			for k := rng.Intn(3); k > 0; k-- {
 				ts = append(ts, delay*3+1000+rng.Intn(1000)) // long after: never waited for
 			}
-			sort.Ints(ts)
-			for _, t := range ts {
-				rs = append(rs, fmt.Sprintf("%d:%d", t, id))
-				id++
-			}
 			parent := "-"
-			class := fmt.Sprintf("delay%d/results%d", delay, len(ts))
+			class := fmt.Sprintf("delay%d", delay)
+			pv := -1
 			switch rng.Intn(5) {
 			case 0:
-				parent = strconv.Itoa(rng.Intn(delay * 6 / 10))
+				pv = 70 + rng.Intn(delay*6/10-70+1)
+				parent = strconv.Itoa(pv)
 				class += "/parent-before"
 			case 1:
 				parent = strconv.Itoa(delay*2 + rng.Intn(300))
 				class += "/parent-after"
+			}
+			// replies racing with a Ctrl-C are neither required nor forbidden: keep 60 ms away from it
+			var keep []int
+			for _, t := range ts {
+				if pv >= 0 && t > pv-60 && t < pv+400 {
+					continue
+				}
+				keep = append(keep, t)
+			}
+			ts = keep
+			class += fmt.Sprintf("/results%d", len(ts))
+			sort.Ints(ts)
+			for _, t := range ts {
+				rs = append(rs, fmt.Sprintf("%d:%d", t, id))
+				id++
 			}
 			r := "-"
 			if len(rs) > 0 {
@@ -704,9 +716,9 @@ func engineJobs(rng *rand.Rand, tier, comp string) []engJob {
 		add := func(W int, kinds, point, class string) {
 			jobs = append(jobs, engJob{tag: "cancel", class: class, f: []string{strconv.Itoa(W), kinds, point, seedOf()}})
 		}
-		runs := 3
+		runs := 24
 		if thorough {
-			runs = 14
+			runs = 300
 		}
 		for i := 0; i < runs; i++ {
 			n := 4 + rng.Intn(9)
@@ -736,9 +748,9 @@ func engineJobs(rng *rand.Rand, tier, comp string) []engJob {
 			}
 		}
 		// full buffers: > cap results / errors queued when the cancellation arrives
-		heavy := 2
+		heavy := 3
 		if thorough {
-			heavy = 10
+			heavy = 30
 		}
 		for i := 0; i < heavy; i++ {
 			W := []int{2, 100, 1000}[rng.Intn(3)]
